@@ -127,9 +127,9 @@ func c06Nested(r *run.Run, maxLen, bound int) {
 		if gpos {
 			name = "C06.nested-gpos"
 		}
-		share := 0.6
+		share := 0.65
 		if gpos {
-			share = 0.9
+			share = 0.95
 		}
 		r.Explore(explore.Config{Name: name, Bound: bound, Deadline: r.PartDeadline(share)},
 			"nested lookup lists [context parent, child 0, child 1 (simple or itself contextual), grandchild, optional second top-level lookup]: parent form (6) x pattern (7) x flags x action list (9) x children x child flags x GDEF, all lists within the deviation bound of a deliberately rich default, on all glyph sequences up to the length bound over {A,B,M,L}",
@@ -149,7 +149,7 @@ func c06NestedFlags(r *run.Run, maxLen int) {
 	children := map[bool][]int{false: {5, 1, 2, 7}, true: {0, 2, 4}}
 	pats := []int{0, 1, 5}
 	actionSets := []int{3, 4, 1}
-	r.Explore(explore.Config{Name: "C06.nested-flags", Deadline: r.PartDeadline(0.95)},
+	r.Explore(explore.Config{Name: "C06.nested-flags", Deadline: r.PartDeadline(0.4)},
 		fmt.Sprintf("nested lists [context parent, child, second child]: ALL pairs of parent flags x child flags from the full 11-entry flag menu (ignore marks/ligatures/bases, both mark filtering sets, both attachment types, filtering set + attachment type) x parent form (6) x 3 patterns x 3 action lists x 4 GSUB / 3 GPOS children, GDEF with classes, attachment classes and two mark sets, on all glyph sequences of length <= %d over {A,B,M,N,L}", maxLen),
 		func(c *explore.Ctx) {
 			gpos := c.Bool("gpos")
@@ -190,7 +190,7 @@ func c06NestedFlags(r *run.Run, maxLen int) {
 func c06Subtables(r *run.Run, maxLen int) {
 	alphabet := []glyph.ID{gen.GA, gen.GB, gen.GM, gen.GN, gen.GL}
 	flags := []int{0, 1, 4, 9}
-	r.Explore(explore.Config{Name: "C06.subtables", Deadline: r.PartDeadline(0.95)},
+	r.Explore(explore.Config{Name: "C06.subtables", Deadline: r.PartDeadline(0.2)},
 		fmt.Sprintf("lookups with two or three subtables: all ordered pairs (and the pair followed by the first again) of menu entries of one lookup type (GSUB 1-4, GPOS 1, 2, 4) x 4 flag sets x 2 GDEF variants, on all glyph sequences of length <= %d over {A,B,M,N,L}: the first subtable that matches at a position is applied, no other", maxLen),
 		func(c *explore.Ctx) {
 			gpos := c.Bool("gpos")
@@ -237,10 +237,11 @@ func init() {
 		if !r.Quick() {
 			maxLen, bound = 6, 4
 		}
-		c06Simple(r, maxLen-1)
-		c06Nested(r, maxLen, bound)
-		c06NestedFlags(r, maxLen-1)
+		// cheap parts first; the deviation-bounded nested lists are the largest and take what remains
 		c06Subtables(r, maxLen-1)
+		c06Simple(r, maxLen-1)
+		c06NestedFlags(r, maxLen-1)
+		c06Nested(r, maxLen, bound)
 		r.MinNontrivial = 100
 	})
 }
